@@ -11,8 +11,8 @@ CASES = {
     'basic':    {'entries': 2, 'alternatives': 1, 'archqual': True, 'version_kinds': 1, 'ws_styles': 2},
     'alts':     {'entries': 1, 'alternatives': 2, 'archqual': True, 'version_kinds': 1, 'ws_styles': 2},
     'versions': {'entries': 1, 'alternatives': 1, 'version_kinds': 4, 'ws_styles': 2, 'ident_chars': 1},
-    'archs':    {'entries': 1, 'alternatives': 1, 'archs': 2, 'version_kinds': 1, 'ws_styles': 4},
-    'profiles': {'entries': 1, 'alternatives': 1, 'profile_groups': 2, 'profile_terms': 2, 'version_kinds': 1, 'ws_styles': 2},
+    'archs':    {'entries': 1, 'alternatives': 1, 'archs': 2, 'version_kinds': 1, 'ws_styles': 5},
+    'profiles': {'entries': 1, 'alternatives': 1, 'profile_groups': 2, 'profile_terms': 2, 'no_version': True, 'ws_styles': 5},
     'field':    {'entries': 2, 'alternatives': 1, 'substvars': True, 'empty_entries': True, 'trailing_comma': True, 'version_kinds': 1, 'ws_styles': 4},
 }
 THOROUGH = {
@@ -29,7 +29,7 @@ class C10(Harness):
     bounds = {'quick': CASES, 'thorough': dict(CASES, **THOROUGH)}
     assumptions = ['fields are generated from the Policy 7.1 grammar: comma separated entries (optionally empty entries, trailing comma), "|" alternatives, name[:archqual] [(op version)] [[!]arch ...] [<[!]profile ...> ...], ${substvars} where enabled',
                    'identifier characters are symbolic within [A-Za-z0-9.+~-] (first character alphanumeric); versions: digit | digit:digit | digit~x | digit-digit with symbolic digits',
-                   'whitespace layout is one of 4 styles applied at every optional position: single space, compact, tab, newline+space',
+                   'whitespace layout is one of 5 styles applied at every optional position: single space, compact, tab, newline+space, bare newline',
                    'the negation of an architecture is expected to be exposed as a leading "!" of the architecture string']
 
     def cases(self, tier):
@@ -65,7 +65,7 @@ class C10(Harness):
         if 'crash' in nat: return [('crash', nat['crash'])]
         v = []
         feats = sorted({f for en in w['spec'] if isinstance(en, list) for r in en for f in r['features']})
-        style = ['spaces', 'compact', 'tabs', 'newlines'][w['style']]
+        style = ['spaces', 'compact', 'tabs', 'newlines', 'bare-newline'][w['style']]
         tag = ','.join(feats) or 'plain'
         want = [en for en in w['spec'] if isinstance(en, list)]
         rt = nat['relaxed_true']
